@@ -164,7 +164,166 @@ def is_known_blocked_pair(t1: str, n0, n1):
     return False
 
 
-PROBE_KINDS = ("comment", "assert", "assert2", "subname", "nested-comment", "after-approve", "after-reject", "after-err", "after-sub-return", "before-approve")
+COMMENT_ONLY_KINDS = {"comment-only-arm-in-loop": [1], "comment-only-else-in-loop": [2], "comment-only-cond-arm": [1], "comment-only-loop-body": []}
+
+
+def comment_only_program(pt, kind, annotated, text):
+    """a branch / arm / body that consists of nothing but the annotation (its un-annotated form is an empty Seq).  Logs the loop counter
+    at which it leaves the loop (COMMENT_ONLY_KINDS[kind]) and then "end"."""
+    i = pt.ScratchVar(pt.TealType.uint64)
+    note = pt.Comment(text) if annotated else pt.Seq()
+    c2 = i.load() % pt.Int(2) == pt.Int(0)
+    tail = pt.Seq(pt.Log(pt.Itob(i.load())), pt.Break())
+    if kind == "comment-only-arm-in-loop":
+        body = pt.If(c2).Then(note).Else(tail)
+    elif kind == "comment-only-else-in-loop":
+        body = pt.If(c2).Then(tail).Else(note)
+    elif kind == "comment-only-cond-arm":
+        body = pt.Cond([c2, note], [pt.Int(1), tail])
+    else:
+        body = note
+    return pt.Seq(i.store(pt.Int(0)), pt.While(i.load() < pt.Int(5)).Do(pt.Seq(i.store(i.load() + pt.Int(1)), body)), pt.Log(pt.Bytes("end")), pt.Approve())
+
+
+def comment_only_exec(job):
+    """the same programs, executed: the annotated program must still do what it says"""
+    kind, version = job
+    from vf.core import use_repo
+    use_repo()
+    import pyteal as pt
+    from spec import avm
+    out = {"job": list(job), "problem": None}
+    try:
+        want = [n.to_bytes(8, "big") for n in COMMENT_ONLY_KINDS[kind]] + [b"end"]
+        for annotated in (False, True):
+            teal = pt.compileTeal(comment_only_program(pt, kind, annotated, "note"), pt.Mode.Application, version=version)
+            r = avm.run(teal, avm.Ctx())
+            if r.verdict != "approve" or r.logs != want:
+                out["problem"] = f"{kind} ({'with' if annotated else 'without'} the comment) at v{version}: {r.verdict} {r.detail} logs {[l.hex() for l in r.logs]}, expected {[w.hex() for w in want]}"
+                out["teal"] = teal
+                break
+    except Exception as e:
+        out["problem"] = f"exception {type(e).__name__}: {str(e)[:160]}"
+    return out
+
+
+def remove_comment_only_blocks(teal: str):
+    """The recorded finding `comment-only-block-keeps-its-jumps`, exactly: a block that holds nothing but comment lines is not elided like
+    an empty block - it stays in the program as `L: // ... ; b M`, reached only by jumps.  This rewrites the text the way eliding it would:
+    every jump to L goes to M, the block is deleted, and a `b X` that now directly precedes `X:` is dropped.  A block is only touched when
+    control cannot FALL into it (the instruction before it is b / return / err / retsub), so the rewrite preserves behaviour.
+    Returns (rewritten text, number of blocks removed)."""
+    lines = [l for l in teal.split("\n")]
+    removed = 0
+    changed = True
+    while changed:
+        changed = False
+        code = [(i, l.strip()) for i, l in enumerate(lines) if l.strip()]
+        for k, (i, l) in enumerate(code):
+            if not (l.endswith(":") and " " not in l and not l.startswith("//")):
+                continue
+            # labels of this block
+            labs, j = [l[:-1]], k + 1
+            while j < len(code) and code[j][1].endswith(":") and " " not in code[j][1]:
+                labs.append(code[j][1][:-1]); j += 1
+            ncom = 0
+            while j < len(code) and code[j][1].startswith("//"):
+                ncom += 1; j += 1
+            if not ncom or j >= len(code) or not code[j][1].startswith("b "):
+                continue
+            target = code[j][1].split()[1]
+            if target in labs:
+                continue
+            # what precedes the block: must not fall through
+            p = k - 1
+            while p >= 0 and code[p][1].startswith("//"):
+                p -= 1
+            prev = code[p][1].split("//")[0].split() if p >= 0 else []
+            if not prev or prev[0] not in ("b", "return", "err", "retsub"):
+                continue
+            dead = {code[x][0] for x in range(k, j + 1)}
+            new = []
+            for x, ln in enumerate(lines):
+                if x in dead:
+                    continue
+                t = ln.strip().split("//")[0].split()
+                if len(t) == 2 and t[0] in ("b", "bz", "bnz") and t[1] in labs:
+                    ln = ln.replace(t[1], target)
+                new.append(ln)
+            lines, removed, changed = new, removed + 1, True
+            break
+    # the comment-only block is the fall-through arm of a conditional branch:  bnz X; // ...; b M; X:   ==   bz M; X:
+    changed = True
+    while changed:
+        changed = False
+        code = [(i, l.strip()) for i, l in enumerate(lines) if l.strip()]
+        for k, (i, l) in enumerate(code):
+            t = l.split("//")[0].split()
+            if not (len(t) == 2 and t[0] in ("bz", "bnz")):
+                continue
+            j, ncom = k + 1, 0
+            while j < len(code) and code[j][1].startswith("//"):
+                ncom += 1; j += 1
+            if not ncom or j >= len(code) or not code[j][1].startswith("b "):
+                continue
+            m = code[j][1].split()[1]
+            q, labs = j + 1, []
+            while q < len(code) and code[q][1].endswith(":") and " " not in code[q][1]:
+                labs.append(code[q][1][:-1]); q += 1
+            if t[1] not in labs:
+                continue
+            dead = {code[x][0] for x in range(k + 1, j + 1)}
+            lines[i] = lines[i].replace(t[0] + " " + t[1], ("bz" if t[0] == "bnz" else "bnz") + " " + m)
+            lines = [ln for x, ln in enumerate(lines) if x not in dead]
+            removed, changed = removed + 1, True
+            break
+    # a jump to the very next instruction
+    changed = True
+    while changed:
+        changed = False
+        code = [(i, l.strip()) for i, l in enumerate(lines) if l.strip() and not l.strip().startswith("//")]
+        for k, (i, l) in enumerate(code[:-1]):
+            t = l.split("//")[0].split()
+            if len(t) == 2 and t[0] == "b":
+                j = k + 1
+                labs = []
+                while j < len(code) and code[j][1].endswith(":") and " " not in code[j][1]:
+                    labs.append(code[j][1][:-1]); j += 1
+                if t[1] in labs:
+                    del lines[i]
+                    changed = True
+                    break
+    return "\n".join(lines), removed
+
+
+def drop_unreferenced_labels(stream):
+    used = {l.split()[1] for l in stream if l.split()[0] in ("b", "bz", "bnz", "callsub") and len(l.split()) == 2}
+    out, ren = [], {}
+    for l in stream:
+        if l.endswith(":") and " " not in l:
+            if l[:-1] not in used:
+                continue
+            ren[l[:-1]] = f"K{len(ren)}"
+    for l in stream:
+        if l.endswith(":") and " " not in l:
+            if l[:-1] in ren:
+                out.append(ren[l[:-1]] + ":")
+            continue
+        t = l.split()
+        out.append(f"{t[0]} {ren.get(t[1], t[1])}" if len(t) == 2 and t[0] in ("b", "bz", "bnz", "callsub") else l)
+    return out
+
+
+def is_known_comment_only_block(t0: str, t1: str):
+    try:
+        t1x, removed = remove_comment_only_blocks(t1)
+        return removed > 0 and drop_unreferenced_labels(normalise(t1x)) == drop_unreferenced_labels(normalise(t0))
+    except Exception:
+        return False
+
+
+PROBE_KINDS = ("comment", "assert", "assert2", "subname", "nested-comment", "after-approve", "after-reject", "after-err", "after-sub-return", "before-approve",
+               "comment-only-arm-in-loop", "comment-only-else-in-loop", "comment-only-cond-arm", "comment-only-loop-body")
 
 
 def probe(job):
@@ -173,7 +332,7 @@ def probe(job):
     from vf.core import use_repo
     use_repo()
     import pyteal as pt
-    out = {"job": list(job), "problem": None, "ran": 0}
+    out = {"job": list(job), "problem": None, "ran": 0, "known_comment_only": None}
 
     def build(annotated):
         x = pt.ScratchVar(pt.TealType.uint64)
@@ -198,6 +357,8 @@ def probe(job):
             if version % 2 == 0:
                 return pt.Seq(pt.If(cond).Then(arm), x.store(pt.Int(3)), pt.Log(pt.Itob(x.load())), pt.Approve())
             return pt.Seq(pt.If(cond).Then(pt.Seq(pt.Log(pt.Bytes("k")), arm)), pt.If(pt.Txn.fee() > pt.Int(7)).Then(pt.Log(pt.Bytes("j"))), pt.Reject())
+        if kind.startswith("comment-only"):
+            return comment_only_program(pt, kind, annotated, text)
         if kind == "after-sub-return":
             def g(a):
                 r = pt.Return(a + pt.Int(1))
@@ -229,8 +390,12 @@ def probe(job):
             return out
         if n0 != n1:
             i = next((k for k, (a, b) in enumerate(zip(n0, n1)) if a != b), min(len(n0), len(n1)))
-            out["problem"] = f"instruction streams differ at #{i}: plain {n0[i:i + 2]} vs annotated {n1[i:i + 2]} (lengths {len(n0)}/{len(n1)})"
-            out["teal"] = t1
+            what = f"instruction streams differ at #{i}: plain {n0[i:i + 2]} vs annotated {n1[i:i + 2]} (lengths {len(n0)}/{len(n1)})"
+            if is_known_comment_only_block(t0, t1):
+                out["known_comment_only"] = what
+            else:
+                out["problem"] = what
+                out["teal"] = t1
     except Exception as e:
         out["problem"] = f"exception {type(e).__name__}: {str(e)[:200]}"
     return out
@@ -326,9 +491,14 @@ def run(report: Report, tier, seed):
     with ProcessPoolExecutor(max_workers=16) as ex:
         pr = list(ex.map(probe, pj, chunksize=16))
     pbad = [r for r in pr if r["problem"]]
+    pknown = [r for r in pr if r.get("known_comment_only")]
     report.bounded.append(Bounded(function="one annotation construct in a fixed small program", contract="instruction stream identical to the unannotated program (or the text is rejected)",
                                   bound=f"{len(PROBE_KINDS)} constructs (Comment, nested Comment, Assert comment with 1 / 2 conditions, subroutine name, a Comment right after / before an exit op inside a branch) x {len(NASTY)} adversarial texts x versions 2..10",
-                                  cases=sum(r["ran"] for r in pr), distinct_nontrivial=len(pj), failures=len(pbad)))
+                                  cases=sum(r["ran"] for r in pr), distinct_nontrivial=len(pj), failures=len(pbad) + len(pknown)))
+    if pknown:
+        k0 = pknown[0]
+        report.violation(Violation(key="comment-only-block-keeps-its-jumps", what=f"annotation probe {k0['job']}: {k0['known_comment_only']}"[:400],
+                                   replay={"input": {"probe": k0["job"]}}, confirmed_native=True))
     plj = placement_jobs()
     with ProcessPoolExecutor(max_workers=16) as ex:
         plr = list(ex.map(placement_case, plj, chunksize=4))
@@ -369,7 +539,7 @@ def replay(data):
         return 1
     if "probe" in inp:
         out = probe(tuple(inp["probe"]))
-        print(out["problem"])
+        print(out["problem"] or out.get("known_comment_only"))
         return 1 if out["problem"] else 0
     if "placement" in inp:
         out = placement_case(tuple(inp["placement"]))
